@@ -26,4 +26,4 @@ cd /verif
 ( VERIF_REPO=$WT ./check $PROP quick ) > $OUT/check.log 2>&1; RC=$?
 grep -h "VIOLATION\|KNOWN-FINDING" $OUT/check.log | cut -c1-300 | tee -a $OUT/confirm.log
 echo "check $PROP quick against seeded tree: exit $RC" | tee -a $OUT/confirm.log
-rm -rf /verif/harness/.alt-* /verif/harness/bin/*-alt-*
+# alt engines are left in place: another run (a builder, the queue) may be using them; they are git-ignored
